@@ -12,6 +12,7 @@
 #include <stdio.h>
 #include <string>
 
+#include <vector>
 #include "../math/vec.h"
 #include "../memory/malloc.h"
 
@@ -34,9 +35,15 @@ namespace rkcommon {
         throw std::runtime_error("Can't open file for writeP[FP]M!");
 
       fprintf(file, header, sizeX, sizeY);
-      auto out = STACK_BUFFER(COMP_T, N_COMP * sizeX);
+      // NOTE: one output row, on the heap: a wide row does not fit on the stack
+      //       (of a tasking thread in particular)
+      std::vector<COMP_T> rowBuffer(static_cast<size_t>(N_COMP) * sizeX);
+      COMP_T *out = rowBuffer.data();
       for (int y = 0; y < sizeY; y++) {
-        auto *in = (const COMP_T *)&pixel[(FLIP ? sizeY - 1 - y : y) * sizeX];
+        // NOTE: in size_t, images of more than 2^31 pixels overflow an int
+        auto *in =
+            (const COMP_T *)&pixel[static_cast<size_t>(FLIP ? sizeY - 1 - y : y) *
+                                   sizeX];
         for (int x = 0; x < sizeX; x++)
           for (int c = 0; c < N_COMP; c++)
             out[N_COMP * x + c] =
